@@ -44,8 +44,11 @@ META = {
         "The pattern matcher/rewriter (apply_eqsat_pdl_interp: which classes get merged, hash-consing, rebuilding) "
         "and the PDL→pdl_interp conversion are NOT modelled: rule applications are validated per run (results on "
         "random inputs, ub runs of the source excluded), not proved. The theorems use total abstract op functions "
-        "(no UB); UB is handled on the validation leg only. A pipeline exception on a valid program is counted in "
-        "the evidence, not reported (the property speaks about results of successful runs); "
+        "(no UB); UB is handled on the validation leg only. A pipeline exception is JUDGED: with a sound rule set, an "
+        "exception raised by conversion, saturation, add-costs or extract on a function on which the no-rule pipeline "
+        "succeeds is reported as a failing input (call site = the stage that raised; shrunk over rules and statements), "
+        "except for the documented unsupported cases, which are only counted: pdl_interp.switch_type (rule sets over "
+        "two element types, no interpreter implementation) and the CPU guard of the harness; "
         "equivalence.const_class is serialised like equivalence.class for the add-costs/extract correspondence (both "
         "passes treat them alike), its constant-folding role in the rewriter is not modelled. "
         "Success of extraction and of the run of its output for a saturated (possibly cyclic) graph is validated, not "
@@ -58,11 +61,17 @@ META = {
     "rule": (
         "A case = generated function (dense single-type arith DAG biased towards rule left-hand sides, or "
         "vp/proggen program restricted to pure arith/cmp/select/cast without control flow and externs) × rule set "
-        "(empty, or 1–10 sound rules of c28_rules for one element type) × iteration bound × cost assignment "
+        "(empty, or 1–10 sound rules of c28_rules for one element type; `multisite` functions carry the same redex "
+        "`v op v` of a constant-CREATING rule (x-x→0, x^x→0, x%x→0, x/x→1, x+x→x*2) at 2–4 sites with other uses of the "
+        "operands and without the created constant in the source, so that several classes are merged into one fresh "
+        "equivalence.const_class) × iteration bound × cost assignment "
         "(default, random cost file, random per-op eqsat_cost) × 4–5 random input vectors. Non-trivial = the "
         "source run is defined (not ub) and, for the rules leg, saturation added at least one alternative to a "
         "class (counted per distinct (program, rules, costs, input)); no-rule leg: the program has ≥1 live op. "
-        "Correspondence cases: every stage output of every case, plus random eclass_union sequences."
+        "Correspondence cases: every stage output of every case, plus eclass_union sequences on created e-graphs in "
+        "which the classes of one constant value are equivalence.const_class ops: random pairs (stale handles included) "
+        "and targeted const-class × regular-class merges of equal size in both argument orders followed by further "
+        "merges through both handles."
     ),
     "trusted_base": [
         "Lean reference semantics XdslModel/Sem.lean (MLIR integer semantics on BitVec, native IEEE floats) and the MiniIR serialiser harness/vp/miniir.py",
@@ -88,6 +97,14 @@ SIG_RESULT_RULES = "extracted program returns different results than the source 
 SIG_RESULT_NORULE = "create-eclasses + extract without rules changes the results"
 SIG_DROPPED = "create-eclasses + extract without rules is not the source minus dead code"
 SIG_LEFTOVER = "e-class left unextracted although every operation has a cost"
+SITE_CONVERT_PASS = "xdsl.transforms.convert_pdl_to_pdl_interp.conversion.ConvertPDLToPDLInterpPass.apply"
+STAGE_SITE = {"convert": SITE_CONVERT_PASS, "saturate": SITE_APPLY, "costs": SITE_COSTS, "extract": SITE_EXTRACT}
+# documented unsupported cases of the pipeline: counted, never judged
+UNSUPPORTED_EXC = ("Could not find interpretation function for op pdl_interp.switch_type", "Timeout:")
+
+
+def sig_exception(stage: str, exc: str) -> str:
+    return f"{stage} raises {exc} on a valid function with a sound rule set (the no-rule pipeline succeeds)"
 
 
 # ------------------------------------------------------------------------------------------------
@@ -305,7 +322,7 @@ def run_pipeline(case: dict[str, Any]) -> dict[str, Any]:
     obs["src_sexp"] = miniir.serialize(m)
     obs["s0"] = eg_text(m)
     try:
-        with cpu_guard(8.0):
+        with cpu_guard(case.get("cpu_s", 8.0)):
             obs["stage"] = "create"
             EqsatCreateEclassesPass().apply(ctx, m)
             m.verify()
@@ -429,6 +446,50 @@ def gen_dense(rng: Any) -> dict[str, Any]:
     return {"program": text, "arg_types": [T] * nargs, "types": [T]}
 
 
+def gen_multisite(rng: Any) -> dict[str, Any]:
+    """the same redex `v op v` of a constant-creating rule at several sites, the operands also used
+    elsewhere, and the created constant absent from the function (e.g. `(x-x) + x*y + (y-y)`)"""
+    T = rng.choice(INT_TYPES)
+    rule = rng.choice(sorted(c28_rules.CREATES_CONSTANT))
+    op, created = c28_rules.CREATES_CONSTANT[rule]
+    nargs = rng.randint(1, 3)
+    args = [f"%a{i}" for i in range(nargs)]
+    lines: list[str] = []
+    n = [0]
+
+    def fresh(p: str = "v") -> str:
+        n[0] += 1
+        return f"%{p}{n[0]}"
+
+    def emit(o: str, a: str, b: str) -> str:
+        v = fresh()
+        lines.append(f"  {v} = arith.{o} {a}, {b} : {T}")
+        return v
+
+    pool = list(args)
+    others = ["muli", "addi", "andi", "ori", "xori", "subi", "maxui"]
+    for _ in range(rng.randint(0, 2)):       # derived operands
+        pool.append(emit(rng.choice(others), rng.choice(pool), rng.choice(pool)))
+    if rng.random() < 0.4:                   # a constant different from the one the rule creates
+        c = fresh("c")
+        lines.append(f"  {c} = arith.constant {rng.choice([v for v in (3, 5, 7, -1, -2) if v != created])} : {T}")
+        pool.append(c)
+    nsites = rng.randint(2, 4)
+    bases = [rng.choice(pool) for _ in range(nsites)] if rng.random() < 0.3 else (rng.sample(pool, min(nsites, len(pool))) * 2)[:nsites]
+    terms = [emit(op, b, b) for b in bases]
+    for _ in range(rng.randint(1, 3)):       # other uses of the operands
+        terms.append(emit(rng.choice(others), rng.choice(pool), rng.choice(pool)))
+    rng.shuffle(terms)
+    acc = terms[0]
+    for t in terms[1:]:
+        acc = emit(rng.choice(["addi", "addi", "ori", "xori", "muli"]), acc, t)
+    rets = [acc] + ([rng.choice(terms)] if rng.random() < 0.3 else [])
+    sig = ", ".join(f"{a}: {T}" for a in args)
+    text = ("builtin.module {\nfunc.func @main(" + sig + ") -> (" + ", ".join([T] * len(rets)) + ") {\n" + "\n".join(lines)
+            + "\n  func.return " + ", ".join(rets) + " : " + ", ".join([T] * len(rets)) + "\n}\n}\n")
+    return {"program": text, "arg_types": [T] * nargs, "types": [T], "must_rules": [[T, rule]]}
+
+
 def pure_config() -> Any:
     cfg = proggen.Config(scf_if=False, scf_for=False, cf=False, calls=False, externs=False, select=True)
     cfg.int_ops = list(proggen.INT_OPS_ALL)
@@ -440,7 +501,10 @@ def pure_config() -> Any:
 
 def gen_case(ctx: core.Ctx, g: Any, leg: str) -> dict[str, Any]:
     rng = ctx.rng
-    if rng.random() < (0.7 if leg == "rules" else 0.4):
+    if leg == "rules" and rng.random() < 0.25:
+        case = gen_multisite(rng)
+        case["gen"] = "multisite"
+    elif rng.random() < (0.6 if leg == "rules" else 0.4):
         case = gen_dense(rng)
         case["gen"] = "dense"
     else:
@@ -448,6 +512,7 @@ def gen_case(ctx: core.Ctx, g: Any, leg: str) -> dict[str, Any]:
         case = {"program": p["text"], "arg_types": p["arg_types"], "gen": "proggen",
                 "types": [t for t in INT_TYPES + ["f32", "f64"] if f": {t}" in p["text"]] or ["i32"]}
     case["leg"] = leg
+    case["cpu_s"] = 3.0 if ctx.tier == "quick" else 8.0
     case["default"] = rng.choice([1, 1, 1, 1, 0, 3])
     case["costs"] = ({"arith." + k: rng.choice([0, 1, 1, 2, 3, 5, 10]) for k in
                       ["addi", "muli", "subi", "andi", "ori", "xori", "shli", "constant", "divui", "addf", "mulf"]}
@@ -466,6 +531,11 @@ def gen_case(ctx: core.Ctx, g: Any, leg: str) -> dict[str, Any]:
             pick = rng.sample(rel, min(len(rel), k)) if rng.random() < 0.8 else []
             pick += [nm for nm in rng.sample(R, k) if nm not in pick][: max(0, k - len(pick))]
             rules += [[t, nm] for nm in pick]
+        must = case.pop("must_rules", [])
+        if must:
+            extra = [r for r in rules if r not in must][: rng.choice([0, 0, 1, 2, 4])]
+            rules = must + extra
+            rng.shuffle(rules)
         case["rules"] = rules
         case["iters"] = rng.choice([1, 2, 3, 3, 5, 8])
     else:
@@ -480,6 +550,7 @@ RULE_ROOT = {
     "mul2shl": "muli", "shl1mul": "shli", "addxx": "addi", "divuixx": "divui", "assoc_addi": "addi",
     "assoc_muli": "muli", "distrib": "addi", "comm_addf": "addf", "comm_mulf": "mulf", "comm_minimumf": "minimumf",
     "comm_maximumf": "maximumf", "mulf1": "mulf", "minxx": "minimumf", "maxxx": "maximumf",
+    "divsixx": "divsi", "remuixx": "remui", "remsixx": "remsi",
 }
 
 REGRESSION_CASES: list[dict[str, Any]] = [
@@ -493,6 +564,12 @@ REGRESSION_CASES: list[dict[str, Any]] = [
                    "  %c2 = arith.constant 2 : i32\n  func.return %v1, %c2 : i32, i32\n}\n}\n",
         "arg_types": ["i32"], "types": ["i32"], "leg": "rules", "gen": "regression", "default": 1,
         "costs": {"arith.addi": 5, "arith.muli": 1}, "presets": [], "rules": [["i32", "addxx"]], "iters": 3},
+    {   # `x - x -> 0` at two sites, no 0 in the function: two merges into one fresh constant class
+        "program": "builtin.module {\nfunc.func @main(%a0: i32, %a1: i32) -> (i32) {\n  %v1 = arith.subi %a0, %a0 : i32\n"
+                   "  %v2 = arith.subi %a1, %a1 : i32\n  %v3 = arith.muli %a0, %a1 : i32\n  %v4 = arith.addi %v1, %v3 : i32\n"
+                   "  %v5 = arith.addi %v4, %v2 : i32\n  func.return %v5 : i32\n}\n}\n",
+        "arg_types": ["i32", "i32"], "types": ["i32"], "leg": "rules", "gen": "regression", "default": 1, "costs": None,
+        "presets": [], "rules": [["i32", "subxx"]], "iters": 3},
     {   # the identity project test of the corpus
         "program": "builtin.module {\nfunc.func @main(%x: index) -> (index) {\n  %c2 = arith.constant 2 : index\n"
                    "  %res = arith.muli %x, %c2 : index\n  func.return %res : index\n}\n}\n",
@@ -642,6 +719,68 @@ def classify_and_report(ctx: core.Ctx, case: dict, obs: dict, vec: list[Any], a:
                  "saturation with sound rules + extraction returned different results\n" + sobs.get("out_text", ""), b, a)
 
 
+def exception_key(obs: dict) -> tuple[str, str] | None:
+    if "exception" not in obs:
+        return None
+    stage, exc = obs["exception"].split(":")[:2]
+    return stage, exc
+
+
+def judge_exception(ctx: core.Ctx, case: dict, obs: dict) -> None:
+    """a sound rule set made the pipeline raise on a function the no-rule pipeline handles: failing input"""
+    key = exception_key(obs)
+    if key is None or any(f.kind == "failing-input" and f.signature == sig_exception(*key) for f in ctx.failures):
+        if key is not None:
+            ctx.count("rules.exception_judged_again")
+        return
+    try:
+        base = run_pipeline({**case, "rules": [], "leg": "norule"})
+    except Exception:  # noqa: BLE001
+        return
+    if "exception" in base:
+        return                      # not a valid input for the pipeline at all
+    budget = [40]
+
+    def same(c: dict) -> bool:
+        if budget[0] <= 0:
+            return False
+        budget[0] -= 1
+        try:
+            o = run_pipeline(c)
+        except Exception:  # noqa: BLE001
+            return False
+        if exception_key(o) != key:
+            return False
+        try:
+            return "exception" not in run_pipeline({**c, "rules": [], "leg": "norule"})
+        except Exception:  # noqa: BLE001
+            return False
+
+    small = dict(case)
+    if ctx.time_left() > 30:
+        if len(small["rules"]) > 1:
+            small["rules"] = core.shrink_list(small["rules"], lambda rs: same({**small, "rules": rs}), max_steps=12)
+        for k in ("presets", "costs"):
+            if small.get(k) and same({**small, k: [] if k == "presets" else None}):
+                small[k] = [] if k == "presets" else None
+        lines = small["program"].split("\n")
+        for i in reversed([i for i, l in enumerate(lines) if " = arith." in l]):
+            cand = "\n".join(l for j, l in enumerate(lines) if j != i)
+            try:
+                parse(mkctx(), cand)
+            except Exception:  # noqa: BLE001
+                continue
+            if same({**small, "program": cand}):
+                lines = cand.split("\n")
+                small["program"] = cand
+    sobs = run_pipeline(small)
+    ctx.fail(STAGE_SITE[key[0]], sig_exception(*key), public_case(small),
+             "with a sound rule set the pipeline raises on a valid function (create-eclasses, add-costs and extract "
+             "succeed on it without rules); the exception is not one of the documented unsupported cases "
+             "(pdl_interp.switch_type across element types, CPU guard)",
+             sobs.get("exception"), "no exception")
+
+
 def run_cases(ctx: core.Ctx, cases: list[dict], g: Any) -> None:
     items: list[tuple[dict, dict, list[list[Any]]]] = []
     corr: list[tuple[str, str, str, dict]] = []   # (model line, expected canonical text, stage, case)
@@ -673,6 +812,8 @@ def run_cases(ctx: core.Ctx, cases: list[dict], g: Any) -> None:
                 corr.append((f"costs {dflt} {dict_token(case.get('costs'))} " + obs["s2"], "raise", "costs", case))
             elif stage == "extract" and obs.get("s3"):
                 corr.append(("extract " + obs["s3"], "raise", "extract", case))
+            if leg == "rules" and stage in STAGE_SITE and not any(u in obs["exception"] for u in UNSUPPORTED_EXC):
+                judge_exception(ctx, case, obs)
             continue
         # ---- structure
         s1, s2, s3, s4 = obs.get("s1"), obs.get("s2"), obs.get("s3"), obs.get("s4")
@@ -739,16 +880,31 @@ def run_merges(ctx: core.Ctx, g: Any, n: int) -> None:
     from xdsl.pattern_rewriter import PatternRewriter
     from xdsl.transforms.eqsat_create_eclasses import EqsatCreateEclassesPass
 
+    from xdsl.dialects import arith, equivalence
+    from xdsl.rewriter import Rewriter
+
     lines, wants, cases = [], [], []
+    rng = ctx.rng
     for _ in range(n):
-        case = gen_dense(ctx.rng)
+        case = gen_dense(rng)
         xctx = mkctx()
         m = parse(xctx, case["program"])
         EqsatCreateEclassesPass().apply(xctx, m)
-        before = eg_text(m)
         blk = main_block(m)
+        # turn the classes of the constants of ONE value into `equivalence.const_class` ops (what the rewriter
+        # creates for a constant it builds); equal values only, so the two-constant assert cannot fire
+        const_ops = [o for o in blk.ops if isinstance(o, arith.ConstantOp)]
+        if const_ops and rng.random() < 0.75:
+            val = rng.choice(const_ops).value
+            for o in const_ops:
+                if o.value == val:
+                    old = next(iter(o.result.uses)).operation
+                    Rewriter.replace_op(old, equivalence.ConstantClassOp(o.result))
+        before = eg_text(m)
         classes = [o for o in blk.ops if is_class(o)]
         ids = {id(o): int(n[1]) for o, n in zip(classes, [n for n in parse_eg(before)[1] if n[0] == "c"])}
+        consts = [o for o in classes if isinstance(o, equivalence.ConstantClassOp)]
+        regular = [o for o in classes if not isinstance(o, equivalence.ConstantClassOp)]
         interp = Interpreter(ModuleOp([]))
         fns = EqsatPDLInterpFunctions()
         fns.populate_known_ops(m)
@@ -757,9 +913,20 @@ def run_merges(ctx: core.Ctx, g: Any, n: int) -> None:
         rw = PatternRewriter(blk.first_op)
         rw.operation_modification_handler.append(fns.modification_handler)
         pf.set_rewriter(interp, rw)
+        plan: list[tuple[Any, Any]] = []
+        if consts and regular and rng.random() < 0.7:
+            # a fresh constant class and a fresh regular class (equal size), in either argument order, then
+            # further merges through the (possibly stale) handles of both
+            k, r = rng.choice(consts), rng.choice(regular)
+            plan.append((k, r) if rng.random() < 0.5 else (r, k))
+            for _ in range(rng.randint(1, 4)):
+                h = rng.choice([k, r, k, r, rng.choice(classes)])
+                o = rng.choice(classes)
+                plan.append((h, o) if rng.random() < 0.5 else (o, h))
+        else:
+            plan = [(rng.choice(classes), rng.choice(classes)) for _ in range(rng.randint(1, 6))]
         pairs, outs = [], []
-        for _ in range(ctx.rng.randint(1, 6)):
-            a, b = ctx.rng.choice(classes), ctx.rng.choice(classes)   # stale (already replaced) handles included
+        for a, b in plan:                      # stale (already replaced) handles included
             pairs.append(f"{ids[id(a)]}:{ids[id(b)]}")
             try:
                 outs.append("true" if fns.eclass_union(interp, a, b) else "false")
@@ -767,13 +934,18 @@ def run_merges(ctx: core.Ctx, g: Any, n: int) -> None:
                 outs.append(core.exc_name(e))
         # the model numbers ids of the *input* graph; the real graph after merging is re-serialised, so both
         # sides are compared in canonical numbering
-        after = eg_text(m)
-        lines.append("merge " + ",".join(pairs) + " " + before)
-        wants.append(",".join(outs) + " | " + canon(after))
-        cases.append({"program": case["program"], "pairs": pairs})
+        try:
+            after = canon(eg_text(m))
+        except Exception as e:  # noqa: BLE001  (dangling operands after a corrupted merge)
+            after = "unserialisable:" + core.exc_name(e)
+        ctok = ",".join(str(ids[id(o)]) for o in consts) or "-"
+        lines.append("merge " + ",".join(pairs) + " " + ctok + " " + before)
+        wants.append(",".join(outs) + " | " + after)
+        cases.append({"program": case["program"], "pairs": pairs, "const_classes": ctok})
         ctx.ev()
+        ctx.count("correspondence.merge.with_const_class" if consts else "correspondence.merge.plain")
         if "true" in outs:
-            ctx.nt(("merge", case["program"], tuple(pairs)))
+            ctx.nt(("merge", case["program"], tuple(pairs), ctok))
     outs = ctx.model("egraph", lines)
     ctx.count("correspondence.merge", len(lines))
     for line, want, case, out in zip(lines, wants, cases, outs):
